@@ -182,8 +182,47 @@ def build(repo):
          subs=ARM + [("let res = f();", "assert(verif_armed); let res = f(); proof { assume(routine_returned(res)); }   /* W-ghost: names the routine's result */")],
          spec="    requires f.requires(()),\n" + POST)
     # ---- mod.rs: what the scope returns, and when
-    U.raw("pub struct Scope<'env, E: 'static> { pub ctx: Ctx, pub _env: core::marker::PhantomData<&'env E> }   // R-type: the Weak guard handles are set up by the stubbed region\n"
-          + STUBS_RUN, label="stubs run")
+    U.raw("""
+// std::sync::Weak<G> (A1): upgrade() yields the guard while some task still holds it
+#[verifier::external_body] #[verifier::accept_recursive_types(G)] pub struct WeakGuard<G> { _p: core::marker::PhantomData<G> }
+impl<G> WeakGuard<G> {
+    pub uninterp spec fn alive(&self) -> bool;
+    #[verifier::external_body] pub fn upgrade(&self) -> (r: Option<Arc<G>>) ensures r.is_some() == self.alive() { unimplemented!() }
+}
+""", label="prelude weak")
+    U.item(F_MOD, "struct Scope", subs=[("ctx::Ctx", "Ctx"), ("Weak<CancelGuard<E>>", "WeakGuard<CancelGuard<E>>"), ("Weak<TerminateGuard<E>>", "WeakGuard<TerminateGuard<E>>"),
+                                         ("std::marker::PhantomData<fn(&'env ()) -> &'env ()>", "core::marker::PhantomData<&'env E>   /* R-type: variance marker */")])
+    U.raw(STUBS_RUN + """
+// R-stub for `unsafe { spawn(Box::pin(TASK.run(f))) }` / `unsafe { spawn_blocking(Box::new(move || TASK.run_blocking(f))) }`.
+// A MAIN task must hold the cancel guard (the context stays active while it runs) unless all main tasks are already gone; a BACKGROUND
+// task must not (it must not keep the context active): "cancelled ... when all main tasks have completed".
+#[verifier::external_body]
+pub fn verif_spawn_task<E: 'static, T, F>(task: Task<E>, f: F, Ghost(main_alive): Ghost<bool>, Ghost(want_main): Ghost<bool>) -> (r: JoinHandle<T>)
+    requires want_main ==> (task is Main || !main_alive), !want_main ==> task is Background,
+{ unimplemented!() }
+""", label="stubs run")
+    SCI = "impl<'env, E: 'static + Send> Scope<'env, E>"
+    U.fn(F_MOD, SCI + " :: fn main_task", wrap=SCI, ret="r",
+         spec="""
+    requires self.cancel_guard.alive() || self.terminate_guard.alive(),
+    ensures self.cancel_guard.alive() ==> r is Main, !self.cancel_guard.alive() ==> r is Background,
+""")
+    U.fn(F_MOD, SCI + " :: fn bg_task", wrap=SCI, ret="r",
+         spec="""
+    requires self.terminate_guard.alive(),       // "this unwrap is safe if spawn is called from within any scope task"
+    ensures r is Background,
+""")
+    SPH = [("JoinHandle<'env, T>", "JoinHandle<T>"), ("impl 'env + Send + Future<Output = Result<T, E>>", "impl Future<Output = Result<T, E>>")]
+    SPB = [("JoinHandle<'env, T>", "JoinHandle<T>"), ("impl 'env + Send + FnOnce() -> Result<T, E>", "impl FnOnce() -> Result<T, E>")]
+    PRE = "    requires self.terminate_guard.alive(),      // called from within a task of this scope\n"
+    U.fn(F_MOD, SCI + " :: fn spawn", wrap=SCI, ret="r", header_subs=SPH,
+         subs=[("unsafe { spawn(Box::pin(self.$M().run(f))) }", "verif_spawn_task(self.$M(), f, Ghost(self.cancel_guard.alive()), Ghost(true))   /* R-stub */")], spec=PRE)
+    U.fn(F_MOD, SCI + " :: fn spawn_bg", wrap=SCI, ret="r", header_subs=SPH,
+         subs=[("unsafe { spawn(Box::pin(self.$M().run(f))) }", "verif_spawn_task(self.$M(), f, Ghost(self.cancel_guard.alive()), Ghost(false))   /* R-stub */")], spec=PRE)
+    U.fn(F_MOD, SCI + " :: fn spawn_blocking", wrap=SCI, ret="r", header_subs=SPB,
+         subs=[("unsafe { spawn_blocking(Box::new(move || task.run_blocking(f))) }", "verif_spawn_task(task, f, Ghost(self.cancel_guard.alive()), Ghost(true))   /* R-stub */")], spec=PRE)
+    U.fn(F_MOD, SCI + " :: fn spawn_bg_blocking", wrap=SCI, ret="r", header_subs=SPB,
+         subs=[("unsafe { spawn_blocking(Box::new(move || task.run_blocking(f))) }", "verif_spawn_task(task, f, Ghost(self.cancel_guard.alive()), Ghost(false))   /* R-stub */")], spec=PRE)
     U.fn(F_STATE, ST + " :: fn take_err", wrap=ST, ret="r",
          subs=[("debug_assert!(self.terminated.try_recv());", "assert(self.terminated.try_recv());   // R-dbg: a proof obligation"),
                ("std::mem::take(&mut *self.err.lock().unwrap())", "self.verif_take_locked()   /* R-stub */")],
